@@ -12,6 +12,7 @@ import re
 from vlib.facts import kids, strip, walk, is_call, call_args, call_object, callee, render, literal
 from vlib.cfg import write_target
 from vlib.work import AnalysisBroken
+from vlib.flow import lex_keys
 
 UNITS = ["src/occa/internal/core/memoryPool.cpp", "src/core/memoryPool.cpp", "src/occa/internal/modes/serial/memoryPool.cpp"]
 MP = "occa::modeMemoryPool_t::"
@@ -255,12 +256,17 @@ def run(ctx):
     if len(cmpf) != 1:
         raise AnalysisBroken("reservation comparator vanished")
     cf = cmpf[0]
-    ifs = [n for n in cf.walk() if n["k"] == "IfStmt"]
-    ok = len(ifs) >= 1 and render(kids(ifs[0])[0], False).replace(" ", "") == "(a->offset!=b->offset)" and \
-        any(x["k"] == "ReturnStmt" and render(kids(x)[0], False).replace(" ", "") == "(a->offset<b->offset)" for x in walk(kids(ifs[0])[1]))
-    R.ob("C03-R5", ok, cf.q, "order:offset first, ascending", "%s:%d" % (cf.relfile, cf.d["line"]), "reservations are ordered by ascending offset")
-    ok2 = len(ifs) >= 2 and "size" in render(kids(ifs[1])[0], False)
-    R.ob("C03-R5", ok2, cf.q, "order:then size", "%s:%d" % (cf.relfile, cf.d["line"]), "ties broken by size")
+    try:
+        keys = lex_keys(cf)
+    except ValueError as e:
+        raise AnalysisBroken("reservation comparator is not a recognised lexicographic comparison: %s" % e)
+    ok = bool(keys) and keys[0] == ("$->offset", True)
+    R.ob("C03-R5", ok, cf.q, "order:offset first, ascending", "%s:%d" % (cf.relfile, cf.d["line"]),
+         "reservations are ordered by ascending offset (keys: %s)" % keys if ok else "the set is not ordered by ascending offset first (keys: %s): the packing loops walk it expecting offsets to rise" % keys)
+    ok2 = bool(keys) and keys[-1][0] == "$"
+    R.ob("C03-R5", ok2, cf.q, "order:object identity is the last key", "%s:%d" % (cf.relfile, cf.d["line"]),
+         "two distinct reservations never compare equivalent" if ok2 else
+         "two distinct reservations with equal %s compare equivalent: std::set drops the second one (a slice or cast of the same range), so resize does not re-point it" % [k for k, _ in keys])
     rec = prog.record("occa::modeMemoryPool_t")
     fl = [x for x in rec["fields"] if x["n"] == "reservations"]
     td = prog.typedefs.get("occa::modeMemoryPool_t::reservationSet")
